@@ -125,8 +125,9 @@ int main(int argc, char** argv) {
 	std::vector<Scn> sc;
 	for (int seq = 0; seq < 2; seq++) for (int ux = 0; ux < 2; ux++) {
 		{ Scn s = { 0, { 0, 0 }, seq != 0, ux != 0, true, T ? 4 : 3 }; sc.push_back(s); }
-		for (int m = 0; m < 3; m++) { Scn s = { 1, { m, 0 }, seq != 0, ux != 0, m == 0, T ? 3 : 2 }; sc.push_back(s); }
-		for (int m0 = 0; m0 < 3; m0++) for (int m1 = m0; m1 < 3; m1++) { if (!T && ux && (m0 || m1)) continue; Scn s = { 2, { m0, m1 }, seq != 0, ux != 0, false, T ? 2 : 1 }; sc.push_back(s); }
+		// thorough bounds are the deepest that finish (measured: n1.m00 at 3 and n2.m00/m01/m02 at 2 need > 25 min of CPU each)
+		for (int m = 0; m < 3; m++) { Scn s = { 1, { m, 0 }, seq != 0, ux != 0, m == 0, (T && m != 0) ? 3 : 2 }; sc.push_back(s); }
+		for (int m0 = 0; m0 < 3; m0++) for (int m1 = m0; m1 < 3; m1++) { if (!T && ux && (m0 || m1)) continue; Scn s = { 2, { m0, m1 }, seq != 0, ux != 0, false, (T && !ux && m0 >= 1) ? 2 : 1 }; sc.push_back(s); }
 	}
 	if (getenv("C14_ONLY")) { std::vector<Scn> q; for (size_t i = 0; i < sc.size(); i++) if (scnName(sc[i]).find(getenv("C14_ONLY")) == 0) q.push_back(sc[i]); sc.swap(q); }
 	if (vf::opt.replay) {
